@@ -192,7 +192,8 @@ def gen_machine_program(r: Rng, feat: Dict[str, bool], size: int) -> Dict:
                ("call", 4 if n_sub else 0), ("pushpop", 3 if feat.get("imr_writes") and depth == 0 else 0),
                ("loop", 3 if depth == 0 and not in_loop else 0),
                ("lcd", 6 if feat.get("lcd") else 0), ("kil", 3 if feat.get("kil_reads") else 0),
-               ("strobe", 2 if feat.get("kil_reads") else 0)]
+               ("strobe", 2 if feat.get("kil_reads") else 0),
+               ("romw", 3 if feat.get("rom_writes") else 0)]
         kind = r.weighted([p for p in pal if p[1] > 0])
         if kind == "nop":
             a.op("NOP")
@@ -263,6 +264,14 @@ def gen_machine_program(r: Rng, feat: Dict[str, bool], size: int) -> Dict:
                 a.lmn("LD_A", base | nib, tag="LCD_R")
             else:
                 a.op("NOP")
+        elif kind == "romw":
+            # stores into read-only / unpopulated windows followed by a read-back
+            addr = r.choice([0xC1000, 0xC1001, 0xFFFF0, 0x01000, 0x3FFFF, 0x10000]) + r.below(4)
+            if not in_loop:
+                a.op("MV_A", r.range(1, 255))
+            a.lmn("ST_A", addr, tag="ROM_W")
+            if not in_loop:
+                a.lmn("LD_A", addr, tag="ROM_R")
         elif kind == "kil":
             if in_loop:
                 a.op("NOP")
